@@ -883,7 +883,7 @@ def inline_function(idx: PyIndex, fi: FuncInfo, depth: int = 2, keep=None, types
     fn._inlined_any = changed_any
     if changed_any:
         # idioms that only appear once the helper body stands in place (a loop over the one-element tuple that was an argument, a flag now tested next to its definition)
-        from .normalise import desugar, _literal_table
+        from .normalise import desugar, _literal_table, _dict_rows
         try:
             # the literal tables of the modules the code came from (its own module and the helpers' modules) are in scope for the desugaring
             pre: List[ast.stmt] = []
@@ -894,15 +894,23 @@ def inline_function(idx: PyIndex, fi: FuncInfo, depth: int = 2, keep=None, types
                 for st0 in mod_.tree.body:
                     tgt0 = st0.targets[0] if isinstance(st0, ast.Assign) and len(st0.targets) == 1 else (st0.target if isinstance(st0, ast.AnnAssign) else None)
                     val0 = getattr(st0, 'value', None)
-                    if isinstance(tgt0, ast.Name) and val0 is not None and tgt0.id not in seen_t and _literal_table(val0) is not None:
+                    if isinstance(tgt0, ast.Name) and val0 is not None and tgt0.id not in seen_t and (_literal_table(val0) is not None or _dict_rows(val0) is not None):
                         seen_t.add(tgt0.id)
                         pre.append(ast.Assign(targets=[ast.Name(id=tgt0.id, ctx=ast.Store())], value=copy.deepcopy(val0), lineno=1, col_offset=0))
-            m = desugar(ast.Module(body=pre + [fn], type_ignores=[]))
-            # the local-name canonical forms as well (a helper's parameter bound to `tok['x']`, a flag now next to its test)
+            # the local-name canonical forms as well (a helper's parameter bound to `tok['x']`, a flag now next to its test); repeated while something changes,
+            # because one rewrite feeds another (a dispatch dict unrolled into branches, then the call moved into them)
             from .normalise import split_live_ranges, alias_paths, alias_paths_nested, inline_test_locals
-            ast.fix_missing_locations(m)
             comp = getattr(idx, 'computed_attrs', frozenset())
-            m = inline_test_locals(alias_paths_nested(alias_paths(split_live_ranges(m), comp), comp))
+            m = ast.Module(body=pre + [fn], type_ignores=[])
+            prev_dump = None
+            for _round in range(4):
+                m = desugar(m)
+                ast.fix_missing_locations(m)
+                m = inline_test_locals(alias_paths_nested(split_live_ranges(m), comp))      # (not the `a.b = v` aliasing of alias_paths: rules name the local they follow)
+                cur_dump = ast.dump(m.body[-1]) if m.body else ''
+                if cur_dump == prev_dump:
+                    break
+                prev_dump = cur_dump
             if m.body and isinstance(m.body[-1], ast.FunctionDef):
                 fn = Canon().visit(m.body[-1])
                 if exact and any(isinstance(x, (ast.If, ast.IfExp)) for x in ast.walk(fn)):
